@@ -132,7 +132,7 @@ def run_hist(ro_text, msg_texts):
     return steps
 
 
-def run_coll(texts, allow_incomplete, strict, how='strings', tmpdir=None):
+def run_coll(texts, allow_incomplete, strict, how='strings', tmpdir=None, again=False):
     saved = None
     if how == 's3':
         import fakes3
@@ -169,7 +169,18 @@ def run_coll(texts, allow_incomplete, strict, how='strings', tmpdir=None):
                 mc.merge(strict=strict)
             except Exception as e:
                 err = ename(e)
-        return {'err': err, 'warns': wnames(ws), 'tree': elem_to_tree(mc.ro.xml)}
+        out = {'err': err, 'warns': wnames(ws), 'tree': elem_to_tree(mc.ro.xml)}
+        if again:
+            # merge() called a second time on the same collection object
+            with warnings.catch_warnings(record=True) as ws2:
+                warnings.simplefilter('always')
+                err2 = None
+                try:
+                    mc.merge(strict=strict)
+                except Exception as e:
+                    err2 = ename(e)
+            out.update({'err2': err2, 'warns2': wnames(ws2), 'tree2': elem_to_tree(mc.ro.xml)})
+        return out
     finally:
         if saved:
             saved[0].s3._client, saved[0].s3._resource = saved[1], saved[2]
